@@ -926,6 +926,17 @@ impl<const N: usize, T> CircularBuffer<N, T> {
         let drop_from = add_mod(self.start, range.start, N);
         let drop_to = add_mod(self.start, range.end, N);
 
+        // Shrink the buffer *before* dropping the elements, so that no element can be dropped
+        // twice (or observed after being dropped) if one of the destructors panics.
+        if range.end == self.size {
+            // Removing elements from the back
+            self.size = range.start;
+        } else {
+            // Removing elements from the front
+            self.start = drop_to;
+            self.size -= range.end;
+        }
+
         let (right, left) = if drop_from < drop_to {
             (&mut self.items[drop_from..drop_to], &mut [][..])
         } else {
@@ -1839,7 +1850,7 @@ impl<const N: usize, T> CircularBuffer<N, T> {
         // initialized. The `size` of the buffer is shrunk before dropping, so no value will be
         // dropped twice in case of panics.
         unsafe { self.drop_range(drop_range) };
-        self.size = len;
+        debug_assert_eq!(self.size, len);
     }
 
     /// Shortens the buffer, keeping only the back `len` elements and dropping the rest.
@@ -1874,8 +1885,7 @@ impl<const N: usize, T> CircularBuffer<N, T> {
         // initialized. The `start` of the buffer is shrunk before dropping, so no value will be
         // dropped twice in case of panics.
         unsafe { self.drop_range(drop_range) };
-        self.start = add_mod(self.start, drop_len, N);
-        self.size = len;
+        debug_assert_eq!(self.size, len);
     }
 
     /// Drops all the elements in the buffer.
